@@ -13,80 +13,179 @@
 #include <sstream>
 #include <sys/time.h>
 using namespace libphysica;
-typedef std::function<void(std::mt19937&, vh::Out&)> Op;
-
-static std::function<double(double, double)> fun2(std::shared_ptr<vh::FExpr> e)
+// ---- sampler calls of the seq / seqn case language --------------------------------------------------------------
+// A call works on the CURRENT generator of its context (g); the context also knows a second generator (h).
+//   onaux <op>                         the call is made on the other generator (g and h swapped)
+//   nest <same|other> <red> <inner-op> <outer-op>
+//        outer-op is a sampler that takes a user function (invt rej rej2 metro metro2).  Its function is RE-ENTRANT:
+//        at every evaluation it first makes the call inner-op on the generator the outer sampler is working on
+//        (same) or on the other one (other), reduces the numbers it returned to z (last | mean | count | none -> 0)
+//        and then evaluates the function expression with that z.  After the outer values the number of
+//        evaluations of the user function is printed.
+struct Rec;
+struct Ctx
 {
-	return [e](double x, double y) {
-		double v[3] = {x, y, 0};
+	std::mt19937* g;
+	std::mt19937* h;
+	Rec* rec;
+};
+struct Sink
+{
+	vh::Out* o;	  // nullptr: values are only collected (inner calls)
+	std::vector<double> data;
+	void f(double x)
+	{
+		data.push_back(x);
+		if(o)
+			o->f(x);
+	}
+	void i(long x)
+	{
+		data.push_back((double) x);
+		if(o)
+			o->i(x);
+	}
+	void count(long x)	 // a length: printed, not a sample
+	{
+		if(o)
+			o->i(x);
+	}
+};
+typedef std::function<void(Ctx&, Sink&)> Op;
+struct Nest
+{
+	bool same;
+	std::string red;
+	Op inner;
+	long calls = 0;
+};
+
+// Where the two generators of the case are (raw outputs consumed since the start), followed incrementally.
+struct Tracker
+{
+	std::mt19937 shadow;
+	long pos	= 0;
+	bool broken = false;
+	long where(const std::mt19937& g)
+	{
+		if(broken)
+			return -1;
+		for(long c = 0; c <= 400000; c++)
+		{
+			if(shadow == g)
+				return pos;
+			shadow();
+			pos++;
+		}
+		broken = true;
+		return -1;
+	}
+};
+struct Rec
+{
+	const std::mt19937 *G = nullptr, *H = nullptr;
+	Tracker tg, th;
+	long nev = 0;
+	std::vector<long> first;   // canonical draws (both generators together) made when the user function was entered
+	void note()
+	{
+		nev++;
+		if(first.size() < 6 && G)
+		{
+			long a = tg.where(*G), b = th.where(*H);
+			first.push_back((a >= 0 && b >= 0 && (a + b) % 2 == 0) ? (a + b) / 2 : -1);
+		}
+	}
+};
+
+static double reduce(const std::string& red, const std::vector<double>& d)
+{
+	if(red == "count")
+		return (double) d.size();
+	if(d.empty() || red == "none")
+		return 0.0;
+	if(red == "last")
+		return d.back();
+	double s = 0.0;	  // mean: left-to-right sum divided by the number of values
+	for(double x : d)
+		s += x;
+	return s / (double) d.size();
+}
+
+// the user function of a call: pure (nest == nullptr) or re-entrant
+static std::function<double(double, double)> mkfun(std::shared_ptr<vh::FExpr> e, std::shared_ptr<Nest> nest, Ctx& c)
+{
+	if(!nest)
+		return [e](double x, double y) {
+			double v[3] = {x, y, 0};
+			return vh::eval_fexpr(*e, v);
+		};
+	Ctx cc = c;
+	return [e, nest, cc](double x, double y) {
+		if(cc.rec)
+			cc.rec->note();
+		nest->calls++;
+		Ctx ci = cc;
+		if(!nest->same)
+			std::swap(ci.g, ci.h);
+		Sink s {nullptr, {}};
+		nest->inner(ci, s);
+		double v[3] = {x, y, reduce(nest->red, s.data)};
 		return vh::eval_fexpr(*e, v);
 	};
 }
-
-// generator in the state described by the case: std::mt19937(seed); with nstate > 0 the first nstate state
-// words are replaced and the read position is set to 0, so that the next outputs are the tempered words.
-static std::mt19937 make_gen(vh::Reader& r)
+static std::function<double(double)> mkfun1(std::shared_ptr<vh::FExpr> e, std::shared_ptr<Nest> nest, Ctx& c)
 {
-	unsigned long seed = std::strtoul(r.word().c_str(), nullptr, 10);
-	long ns			   = r.integer();
-	std::mt19937 g((std::mt19937::result_type) seed);
-	if(ns > 0)
-	{
-		std::ostringstream os;
-		os << g;
-		std::istringstream is(os.str());
-		std::vector<std::string> w;
-		std::string t;
-		while(is >> t)
-			w.push_back(t);	  // 624 state words, then the position
-		for(long k = 0; k < ns; k++)
-			w[k] = r.word();
-		w[624] = "0";
-		std::string s;
-		for(auto& x : w)
-			s += x + " ";
-		std::istringstream is2(s);
-		is2 >> g;
-	}
-	return g;
+	std::function<double(double, double)> f = mkfun(e, nest, c);
+	return [f](double x) { return f(x, 0.0); };
 }
 
-// number of raw 32-bit outputs that take generator `from` to the state of `to` (-1: not within the cap)
-static long raw_distance(std::mt19937 from, const std::mt19937& to, long cap = 40000000)
-{
-	for(long c = 0; c <= cap; c++)
-	{
-		if(from == to)
-			return c;
-		from();
-	}
-	return -1;
-}
-
-static Op parse_op(vh::Reader& r)
+static Op parse_op(vh::Reader& r, std::shared_ptr<Nest> nest = nullptr)
 {
 	std::string op = r.word();
+	if(op == "onaux")
+	{
+		Op in = parse_op(r, nest);
+		return [=](Ctx& c, Sink& o) {
+			Ctx d = c;
+			std::swap(d.g, d.h);
+			in(d, o);
+		};
+	}
+	if(op == "nest")
+	{
+		auto n	 = std::make_shared<Nest>();
+		n->same	 = (r.word() == "same");
+		n->red	 = r.word();
+		n->inner = parse_op(r);
+		Op outer = parse_op(r, n);
+		return [=](Ctx& c, Sink& o) {
+			long before = n->calls;
+			outer(c, o);
+			o.count(n->calls - before);
+		};
+	}
 	if(op == "uniform")
 	{
 		double a = r.num(), b = r.num();
-		return [=](std::mt19937& g, vh::Out& o) { o.f(Sample_Uniform(g, a, b)); };
+		return [=](Ctx& c, Sink& o) { o.f(Sample_Uniform(*c.g, a, b)); };
 	}
 	if(op == "gauss")
 	{
 		double a = r.num(), b = r.num();
-		return [=](std::mt19937& g, vh::Out& o) { o.f(Sample_Gauss(g, a, b)); };
+		return [=](Ctx& c, Sink& o) { o.f(Sample_Gauss(*c.g, a, b)); };
 	}
 	if(op == "poisson")
 	{
 		double lam = r.num();
-		return [=](std::mt19937& g, vh::Out& o) { o.i((long) Sample_Poisson(g, lam)); };
+		return [=](Ctx& c, Sink& o) { o.i((long) Sample_Poisson(*c.g, lam)); };
 	}
 	if(op == "poissonv")
 	{
 		std::vector<double> lams = r.list();
-		return [=](std::mt19937& g, vh::Out& o) {
-			std::vector<unsigned int> v = Sample_Poisson(g, lams);
-			o.i((long) v.size());
+		return [=](Ctx& c, Sink& o) {
+			std::vector<unsigned int> v = Sample_Poisson(*c.g, lams);
+			o.count((long) v.size());
 			for(auto x : v)
 				o.i((long) x);
 		};
@@ -94,22 +193,28 @@ static Op parse_op(vh::Reader& r)
 	if(op == "invt")
 	{
 		double a = r.num(), b = r.num();
-		std::function<double(double)> cdf = vh::fun1(vh::parse_fexpr(r));
-		return [=](std::mt19937& g, vh::Out& o) { o.f(Inverse_Transform_Sampling(cdf, a, b, g)); };
+		auto e = vh::parse_fexpr(r);
+		return [=](Ctx& c, Sink& o) {
+			std::function<double(double)> cdf = mkfun1(e, nest, c);
+			o.f(Inverse_Transform_Sampling(cdf, a, b, *c.g));
+		};
 	}
 	if(op == "rej")
 	{
 		double a = r.num(), b = r.num(), ym = r.num();
-		std::function<double(double)> pdf = vh::fun1(vh::parse_fexpr(r));
-		return [=](std::mt19937& g, vh::Out& o) { o.f(Rejection_Sampling(pdf, a, b, ym, g)); };
+		auto e = vh::parse_fexpr(r);
+		return [=](Ctx& c, Sink& o) {
+			std::function<double(double)> pdf = mkfun1(e, nest, c);
+			o.f(Rejection_Sampling(pdf, a, b, ym, *c.g));
+		};
 	}
 	if(op == "rej2")
 	{
-		double a = r.num(), b = r.num(), c = r.num(), d = r.num(), zm = r.num();
-		std::function<double(double, double)> pdf = fun2(vh::parse_fexpr(r));
-		return [=](std::mt19937& g, vh::Out& o) {
-			std::function<double(double, double)> f = pdf;
-			auto p									= Rejection_Sampling_2D(g, f, a, b, c, d, zm);
+		double a = r.num(), b = r.num(), c0 = r.num(), d = r.num(), zm = r.num();
+		auto e = vh::parse_fexpr(r);
+		return [=](Ctx& c, Sink& o) {
+			std::function<double(double, double)> f = mkfun(e, nest, c);
+			auto p									= Rejection_Sampling_2D(*c.g, f, a, b, c0, d, zm);
 			o.f(p.first);
 			o.f(p.second);
 		};
@@ -118,19 +223,26 @@ static Op parse_op(vh::Reader& r)
 	{
 		double sigma = r.num();
 		long sample = r.integer(), thin = r.integer(), burn = r.integer();
-		std::vector<double> dom			  = r.list();
-		std::function<double(double)> pdf = vh::fun1(vh::parse_fexpr(r));
-		return [=](std::mt19937& g, vh::Out& o) { o.fl(Sample_Metropolis(g, pdf, sigma, (unsigned) sample, (unsigned) thin, (unsigned) burn, dom)); };
+		std::vector<double> dom = r.list();
+		auto e					= vh::parse_fexpr(r);
+		return [=](Ctx& c, Sink& o) {
+			std::function<double(double)> pdf = mkfun1(e, nest, c);
+			std::vector<double> v			  = Sample_Metropolis(*c.g, pdf, sigma, (unsigned) sample, (unsigned) thin, (unsigned) burn, dom);
+			o.count((long) v.size());
+			for(double x : v)
+				o.f(x);
+		};
 	}
 	if(op == "metro2")
 	{
 		double s1 = r.num(), s2 = r.num();
 		long sample = r.integer(), thin = r.integer(), burn = r.integer();
-		std::vector<double> dom					  = r.list();
-		std::function<double(double, double)> pdf = fun2(vh::parse_fexpr(r));
-		return [=](std::mt19937& g, vh::Out& o) {
-			auto v = Sample_Metropolis_2D(g, pdf, std::make_pair(s1, s2), (unsigned) sample, (unsigned) thin, (unsigned) burn, dom);
-			o.i((long) v.size());
+		std::vector<double> dom = r.list();
+		auto e					= vh::parse_fexpr(r);
+		return [=](Ctx& c, Sink& o) {
+			std::function<double(double, double)> pdf = mkfun(e, nest, c);
+			auto v									  = Sample_Metropolis_2D(*c.g, pdf, std::make_pair(s1, s2), (unsigned) sample, (unsigned) thin, (unsigned) burn, dom);
+			o.count((long) v.size());
 			for(auto& p : v)
 			{
 				o.f(p.first);
@@ -178,27 +290,57 @@ static void handler(vh::Reader& r, vh::Out& o)
 		set_limit(30.0, 3.0);
 	else
 		set_limit(4.0, 0.5);
-	if(kind == "seq")
+	if(kind == "seq" || kind == "seqn")
 	{
+		bool two		= (kind == "seqn");
 		std::mt19937 g0 = make_gen(r);
 		long N			= r.integer();
 		for(long k = 0; k < N; k++)
 			r.word();	// the uniforms are for the model
+		std::mt19937 h0(12345u);
+		if(two)
+		{
+			h0		= std::mt19937((std::mt19937::result_type) std::strtoul(r.word().c_str(), nullptr, 10));
+			long N2 = r.integer();
+			for(long k = 0; k < N2; k++)
+				r.word();
+		}
 		long K = r.integer();
 		std::vector<Op> ops;
 		for(long k = 0; k < K; k++)
 			ops.push_back(parse_op(r));
-		std::mt19937 g1 = g0, g2 = g0;
+		std::mt19937 g1 = g0, g2 = g0, h1 = h0, h2 = h0;
 		vh::Out o2;
+		Rec rec;
+		rec.G		  = &g1;
+		rec.H		  = &h1;
+		rec.tg.shadow = g0;
+		rec.th.shadow = h0;
+		Ctx c1 {&g1, &h1, &rec}, c2 {&g2, &h2, nullptr};
+		Sink s1 {&o, {}}, s2 {&o2, {}};
 		for(auto& f : ops)
-			f(g1, o);
+			f(c1, s1);
 		for(auto& f : ops)
-			f(g2, o2);
-		bool same = (o.s.str() == o2.s.str()) && (g1 == g2);
+			f(c2, s2);
+		bool same = (o.s.str() == o2.s.str()) && (g1 == g2) && (h1 == h2);
 		long d	  = raw_distance(g0, g1);
 		o.i(d >= 0 && d % 2 == 0 ? d / 2 : -1);
+		if(two)
+		{
+			long d2 = raw_distance(h0, h1);
+			o.i(d2 >= 0 && d2 % 2 == 0 ? d2 / 2 : -1);
+		}
 		o.i(same ? 1 : 0);
+		if(two)
+		{
+			o.i(rec.nev);
+			o.i((long) rec.first.size());
+			for(long p : rec.first)
+				o.i(p);
+		}
 		o.i((long) g1());
+		if(two)
+			o.i((long) h1());
 	}
 	else if(kind == "mgrid")
 	{
